@@ -47,6 +47,9 @@ def nverts(shape, d):
 
 
 SHAPES = [("h", 1), ("h", 2), ("h", 3), ("s", 2), ("s", 3)]
+# (shape, shape dimension, world dimension): the mesh types the harness instantiates, including the ones embedded in a
+# higher-dimensional world (surfaces in 3D, curves in 2D / 3D)
+MESH_TYPES = [(sh, d, d) for sh, d in SHAPES] + [("s", 2, 3), ("h", 2, 3), ("h", 1, 2), ("h", 1, 3)]
 SHAPE_NAME = {"h": "hypercube", "s": "simplex"}
 
 
@@ -73,17 +76,17 @@ def rand_name(rng, allow_odd=True):
 
 
 def gen_mesh_struct(rng, small=False):
-    shape, dim = rng.choice(SHAPES)
+    shape, dim, wdim = rng.choice(MESH_TYPES)
     nv = rng.choice([1, 2, 3, 4, 6, 9]) if not small else rng.choice([2, 3, 4])
     sizes = [nv] + [rng.choice([1, 1, 2, 3, 5]) for _ in range(dim)]
     has_mesh = rng.random() < 0.93
     m = {"shape": shape, "dim": dim, "sizes": sizes,
-         "verts": [[rand_frac(rng) for _ in range(dim)] for _ in range(nv)],
+         "wdim": wdim, "verts": [[rand_frac(rng) for _ in range(wdim)] for _ in range(nv)],
          "topo": {d: [tuple(rng.randrange(nv) for _ in range(nverts(shape, d))) for _ in range(sizes[d])]
                   for d in range(1, dim + 1)}}
     # charts of the modelled kinds: Circle (2D), Sphere (3D)
     charts = []
-    if dim in (2, 3):
+    if wdim in (2, 3):         # the chart kinds depend on the WORLD dimension
         cnames = set()
         for _ in range(rng.choice([0, 0, 1, 2])):
             cn = rand_name(rng, allow_odd=False)
@@ -91,12 +94,12 @@ def gen_mesh_struct(rng, small=False):
                 continue
             cnames.add(cn)
             radius = Fraction(rng.randrange(1, 5000), rng.choice([1, 10, 1000]))
-            mid = [rand_frac(rng) for _ in range(dim)]
+            mid = [rand_frac(rng) for _ in range(wdim)]
             dom = None
-            if dim == 2 and rng.random() < 0.5:
+            if wdim == 2 and rng.random() < 0.5:
                 l = rand_frac(rng)
                 dom = (l, l + Fraction(rng.randrange(1, 50), rng.choice([1, 4, 10])))
-            if dim == 2 and rng.random() < 0.4:
+            if wdim == 2 and rng.random() < 0.4:
                 # Bezier chart: >= 2 vertex points, each (but the first) with 0..2 control points, optional params
                 nvp = rng.choice([2, 3, 5])
                 segs = [([[rand_frac(rng), rand_frac(rng)] for _ in range(0 if i == 0 else rng.choice([0, 0, 1, 2]))],
@@ -157,8 +160,8 @@ def gen_mesh_struct(rng, small=False):
         patches = {r: elems[a:b] for r, a, b in zip(ranks, [0] + cuts, cuts + [ne])}
         partitions.append({"name": rng.choice(["", rand_name(rng)]), "prio": rng.choice([None, 0, 1, -3, 17]),
                            "level": rng.choice([None, 0, 1, 4]), "nr": nr, "ne": ne, "ranks": ranks, "patches": patches})
-    return {"mesh": m if has_mesh else None, "shape": shape, "dim": dim, "parts": parts, "partitions": partitions,
-            "charts": charts}
+    return {"mesh": m if has_mesh else None, "shape": shape, "dim": dim, "wdim": wdim, "parts": parts,
+            "partitions": partitions, "charts": charts}
 
 
 def gen_parent_part(rng, nm, m, shape, dim, charts):
@@ -264,7 +267,8 @@ def sep(rng, fancy):
 def print_mesh_file(rng, st, fancy=True):
     L = Lines(rng, fancy)
     shape, dim = st["shape"], st["dim"]
-    mtype = "conformal:%s:%d:%d" % (SHAPE_NAME[shape], dim, dim)
+    wdim = st.get("wdim", dim)
+    mtype = "conformal:%s:%d:%d" % (SHAPE_NAME[shape], dim, wdim)
     L.add("root", markup(rng, fancy, "FeatMeshFile", [("version", "1"), ("mesh", mtype)]))
     L.ind += 2
     if fancy and rng.random() < 0.3:
@@ -330,7 +334,7 @@ def print_mesh_file(rng, st, fancy=True):
             attrs = [("radius", num(c["radius"])), ("midpoint", sep(rng, fancy).join(num(x) for x in c["mid"]))]
             if c["dom"] is not None:
                 attrs.append(("domain", sep(rng, fancy).join(num(x) for x in c["dom"])))
-            kind = "Circle" if dim == 2 else "Sphere"
+            kind = "Circle" if wdim == 2 else "Sphere"
             if fancy and rng.random() < 0.3:
                 L.add("chart-item-open", markup(rng, fancy, kind, attrs))
                 L.add("chart-item-close", "</%s>" % kind)
@@ -1206,9 +1210,12 @@ K_KINDS = {
     "G": ("accepted", "sanitizer-asan"),
     # K16: BezierPointsParser: (num_ctrl+1)*2+1 wraps around for a huge control point count -> std::out_of_range
     "H": ("other-exception",),
+    # K17: a <SurfaceMesh> chart in a file whose mesh type has shape dimension <= 2 (surface / curve in a 3D world)
+    #      reaches the disabled SurfaceMeshChartParser: XABORTM("Thou shall not arrive here")
+    "I": ("abort",),
 }
-K_ORDER = "B1FGH"
-K_NAME = {"B": "1", "F": "14", "G": "15", "H": "16"}
+K_ORDER = "B1FGHI"
+K_NAME = {"B": "1", "F": "14", "G": "15", "H": "16", "I": "17"}
 
 
 def first_content_line(text):
@@ -1333,7 +1340,12 @@ def check_dump_wf(dump):
             if nv != sizes[0]:
                 return "vertex count %d differs from declared %d" % (nv, sizes[0])
             dim = len(sizes) - 1
-            p += nv * dim
+            # the coordinates (world dimension x vertex count rationals "a/b") run up to the first T / NP token
+            q0 = p
+            while t[p] not in ("T", "NP"):
+                p += 1
+            if nv > 0 and (p - q0) % nv != 0:
+                return "vertex coordinates are not a multiple of the vertex count"
             for d in range(1, dim + 1):
                 assert nxt() == "T"
                 dd, cnt, ni = int(nxt()), int(nxt()), int(nxt())
@@ -1741,6 +1753,22 @@ def corpus_cases():
           '<Topology dim="3">\n0 1 2 3 4 5 6 7\n</Topology>\n</Mesh>\n')
     surf = lambda tri: ('<Chart name="c">\n<SurfaceMesh verts="3" trias="1">\n<Vertices>\n0 0 0\n1 0 0\n0 1 0.5\n</Vertices>\n<Triangles>\n'
                         + tri + '\n</Triangles>\n</SurfaceMesh>\n</Chart>\n')
+    # mesh types embedded in a higher-dimensional world: a triangle surface in 3D, a line mesh in 2D
+    S23 = '<FeatMeshFile version="1" mesh="conformal:simplex:2:3">\n'
+    MS23 = ('<Mesh type="conformal:simplex:2:3" size="4 5 2">\n<Vertices>\n0 0 0\n1 0 0.5\n0 1 0.5\n1 1 0\n</Vertices>\n'
+            '<Topology dim="1">\n0 1\n1 2\n2 0\n1 3\n3 2\n</Topology>\n<Topology dim="2">\n0 1 2\n1 3 2\n</Topology>\n</Mesh>\n')
+    L12 = '<FeatMeshFile version="1" mesh="conformal:hypercube:1:2">\n'
+    ML12 = ('<Mesh type="conformal:hypercube:1:2" size="3 2">\n<Vertices>\n0 0\n1 0.5\n2 0\n</Vertices>\n<Topology dim="1">\n0 1\n1 2\n'
+            '</Topology>\n</Mesh>\n')
+    prt = ('<MeshPart name="b" parent="root" topology="parent" size="2 1">\n<Mapping dim="0">\n1\n0\n</Mapping>\n<Mapping dim="1">\n0\n'
+           '</Mapping>\n<Attribute name="n" dim="3">\n0 0 1\n1/3 0 2\n</Attribute>\n</MeshPart>\n')
+    c += [("A", S23 + '<Chart name="s">\n<Sphere radius="1" midpoint="0 0 0.5" />\n</Chart>\n' + MS23 + prt + E, None),
+          ("A", L12 + '<Chart name="c">\n<Circle radius="2" midpoint="1 0" />\n</Chart>\n' + ML12 + prt + E, None),
+          ("R", S23 + MS23.replace("simplex:2:3", "simplex:2:2") + E, CE),          # header: world dimension differs
+          ("R", S23 + MS23.replace("1 0 0.5\n", "1 0\n") + E, CE),               # 2 coordinates in a 3D world
+          ("R", L12 + ML12.replace("1 0.5\n", "1 0.5 0\n") + E, CE),             # 3 coordinates in a 2D world
+          ("R", L12 + '<Chart name="s">\n<Sphere radius="1" midpoint="0 0 0" />\n</Chart>\n' + ML12 + E, GE),   # 3D chart, 2D world
+          ("RKI", S23 + surf("0 1 2") + MS23 + E, None)]                            # K17 (open): abort
     c += [("A", H3 + surf("0 1 2") + M3 + E, None),        # former K13: must round-trip
           ("RKG", H3 + surf("0 1 7") + M3 + E, None)]      # K15 (open): vertex index 7 of 3 vertices
     cases = []
@@ -1756,13 +1784,15 @@ def corpus_cases():
 
 
 
-def sweep_struct(shape, dim, zero_dim=None, small=False):
+def sweep_struct(shape, dim, zero_dim=None, small=False, wdim=None):
+    wdim = dim if wdim is None else wdim
     """fixed mesh node: root mesh, part `pf` with full topology, part `pn` without, one attribute each, one partition;
     every declared size is non-zero except (optionally) dimension `zero_dim` of both parts"""
     nv = 4
     sizes = [nv] + [1 if small else 2] * dim
     tup = lambda d, k: tuple((k + j) % nv for j in range(nverts(shape, d)))
-    mesh = {"shape": shape, "dim": dim, "sizes": sizes, "verts": [[Fraction(i + j, 2) for j in range(dim)] for i in range(nv)],
+    mesh = {"shape": shape, "dim": dim, "sizes": sizes, "wdim": wdim,
+            "verts": [[Fraction(i + j, 2) for j in range(wdim)] for i in range(nv)],
             "topo": {d: [tup(d, k) for k in range(sizes[d])] for d in range(1, dim + 1)}}
     parts = []
     for nm, tt in (("pf", "full"), ("pn", "none")):
@@ -1783,7 +1813,7 @@ def sweep_struct(shape, dim, zero_dim=None, small=False):
                          for d in range(1, dim + 1)}
         parts.append(p)
     ps = [{"name": "p", "prio": 1, "level": 0, "nr": 3, "ne": 4, "ranks": [0, 1, 2], "patches": {0: [0, 1], 1: [2], 2: [3]}}]
-    return {"mesh": mesh, "shape": shape, "dim": dim, "parts": parts, "partitions": ps}
+    return {"mesh": mesh, "shape": shape, "dim": dim, "wdim": wdim, "parts": parts, "partitions": ps}
 
 
 def sweep_cases():
@@ -1792,8 +1822,8 @@ def sweep_cases():
     size of that dimension declared zero and the block absent (the reader allows the omission: must accept)"""
     rng = random.Random(0)
     cases = []
-    for shape, dim, small in [(sh, d, sm) for sh, d in SHAPES for sm in (False, True)]:
-        st = sweep_struct(shape, dim, small=small)
+    for shape, dim, wdim, small in [(sh, d, w, sm) for sh, d, w in MESH_TYPES for sm in (False, True)]:
+        st = sweep_struct(shape, dim, small=small, wdim=wdim)
         L = print_mesh_file(rng, st, fancy=False)
         base = "mesh A " + hx(L.text())
         EXPECT[base] = expected_dump(st)
@@ -1805,7 +1835,7 @@ def sweep_cases():
             KIND[case] = "sweep:" + bk
             cases.append(case)
         for zd in range(dim + 1):
-            st0 = sweep_struct(shape, dim, zero_dim=zd, small=small)
+            st0 = sweep_struct(shape, dim, zero_dim=zd, small=small, wdim=wdim)
             L0 = print_mesh_file(rng, st0, fancy=False)     # the printer omits Mapping/Topology blocks of size 0
             c0 = "mesh %s %s" % (add_recognised("A", L0.text()), hx(L0.text()))
             EXPECT[c0] = expected_dump(st0)
@@ -1937,7 +1967,7 @@ def shipped_cases(limit_bytes):
 def build(args):
     srcdir = os.path.join(vlib.VERIF, "harness", "c11")
     return vlib.build_harness("c11", os.path.join(srcdir, "main.cpp"),
-                              extra_srcs=[os.path.join(srcdir, "mesh_%s.cpp" % k) for k in ("h1", "h2", "h3", "s2", "s3", "h2d", "h3d")],
+                              extra_srcs=[os.path.join(srcdir, "mesh_%s.cpp" % k) for k in ("h1", "h2", "h3", "s2", "s3", "h2d", "h3d", "s2w3", "h2w3", "h1w2", "h1w3")],
                               extra_flags=["-fsanitize=address,undefined", "-fno-sanitize-recover=all", "-g"])
 
 
